@@ -35,5 +35,9 @@ func main() {
 	}
 	r := ev.New(id, m.Level)
 	m.Run(r)
+	if os.Getenv("VERIF_RACE_COLLECT") == "1" {
+		// race-detector build of a monitor that does not collect the reports itself (C10 and C17 do)
+		r.CollectRaces("github.com/cossacklabs/acra")
+	}
 	os.Exit(r.Finish())
 }
